@@ -36,9 +36,9 @@ func gen(c *lib.Ctx) {
 	genCorpus(c)
 	switch {
 	case all:
-		genRandom(c, c.Scale(3000, 20000), c.Scale(40, 100))
+		genRandom(c, c.Scale(3000, 10000), c.Scale(40, 100))
 	case part == "c06":
-		genRandom(c, c.Scale(3000, 20000), c.Scale(40, 100))
+		genRandom(c, c.Scale(3000, 10000), c.Scale(40, 100))
 	default:
 		genRandom(c, c.Scale(400, 4000), c.Scale(40, 100))
 	}
